@@ -30,7 +30,7 @@ RULE = (
     "OSError; later opens are judged). Oracle after each fault: open_alos2(path) with default options "
     "returns a tree identical to the uncached reference; then create_cache=True succeeds, the "
     "user-dir index file is complete (parses, equals the reference document) and use_cache=True "
-    "equals the reference. Non-trivial: 0 < k < len."
+    "equals the reference. Stage 'interleaved-opens': two or three opens of one product run as threads under a deterministic scheduler whose yield points are the library's operations on index files (is_file / exists / read / mkdir / unlink / rename / replace; a write is three steps: truncated, first half, complete): a default open interleaved with one or two create_cache=True opens, starting from a complete / absent / torn cache; depth-first enumeration of the interleavings (bounded per shard in quick); the reader must return the reference tree under every interleaving and a later default open too. Non-trivial: 0 < k < len."
 )
 ASSUMPTIONS = [
     "crash = process death or a still-running writer; power loss (page cache vs disk ordering) cannot be produced here",
@@ -209,6 +209,219 @@ sys.stdout.write("DONE\n"); sys.stdout.flush()
 """
 
 
+
+# ---- interleaved reader / library writer ---------------------------------------------------------
+INDEX_OPS = []
+
+
+class PathYields:
+    """while active, the operations the library performs on index files (and on the directory that
+    holds them) are yield points of a deterministic scheduler, and a write of an index file is not
+    atomic: it becomes visible as 'truncated', 'first half', 'complete' - what another process
+    can observe of a plain write"""
+
+    def __init__(self, sched):
+        self.sched = sched
+        self.saved = []
+
+    @staticmethod
+    def concerns(path):
+        text = os.fspath(path) if not isinstance(path, int) else ""
+        if isinstance(text, bytes):
+            text = text.decode("utf-8", "replace")
+        return ".index" in text or "xarray-ceos-alos2" in text
+
+    def patch(self, owner, name, make):
+        original = getattr(owner, name)
+        self.saved.append((owner, name, original))
+        setattr(owner, name, make(original))
+
+    def __enter__(self):
+        sched, concerns = self.sched, self.concerns
+
+        def simple(label):
+            def make(original):
+                def wrapper(path, *args, **kwargs):
+                    if concerns(path):
+                        sched.yield_point((label, os.path.basename(os.fspath(path))))
+                    return original(path, *args, **kwargs)
+                return wrapper
+            return make
+
+        for name in ("is_file", "exists", "read_text", "read_bytes", "mkdir"):
+            self.patch(pathlib.Path, name, simple(name))
+        for name in ("unlink", "remove", "rename", "replace"):
+            self.patch(os, name, simple(name))
+
+        def make_write_text(original):
+            def write_text(path, data, encoding=None, errors=None, newline=None):
+                if not concerns(path) or not isinstance(data, str):
+                    return original(path, data, encoding=encoding, errors=errors, newline=newline)
+                base = os.path.basename(os.fspath(path))
+                sched.yield_point(("write:truncate", base))
+                half = len(data) // 2
+                with open(path, "w", encoding=encoding, errors=errors, newline=newline) as f:
+                    sched.yield_point(("write:first-half", base))
+                    f.write(data[:half])
+                    f.flush()
+                    sched.yield_point(("write:rest", base))
+                    f.write(data[half:])
+                return len(data)
+            return write_text
+
+        def make_write_bytes(original):
+            def write_bytes(path, data):
+                if not concerns(path):
+                    return original(path, data)
+                base = os.path.basename(os.fspath(path))
+                sched.yield_point(("write:truncate", base))
+                view = bytes(data)
+                half = len(view) // 2
+                with open(path, "wb") as f:
+                    sched.yield_point(("write:first-half", base))
+                    f.write(view[:half])
+                    f.flush()
+                    sched.yield_point(("write:rest", base))
+                    f.write(view[half:])
+                return len(view)
+            return write_bytes
+
+        self.patch(pathlib.Path, "write_text", make_write_text)
+        self.patch(pathlib.Path, "write_bytes", make_write_bytes)
+        return self
+
+    def __exit__(self, *exc):
+        for owner, name, original in reversed(self.saved):
+            setattr(owner, name, original)
+        self.saved = []
+
+
+ACTORS = {
+    # name -> options of the open performed by that thread
+    "reader": {},
+    "reader-rpc": {"records_per_chunk": 2},
+    "writer": {"create_cache": True, "use_cache": False},
+    "writer-using": {"create_cache": True, "use_cache": True},
+}
+
+
+def run_interleaved(case, prod, images, ref, docs, schedule):
+    """one schedule of two or three concurrent opens of the same product; returns (discs, sched)"""
+    import threading
+
+    from vf.props import c19
+
+    clean(prod, images)
+    initial = case["initial"]
+    if initial != "absent":
+        for image in images:
+            p = location_path(prod, image, "user")
+            p.parent.mkdir(parents=True, exist_ok=True)
+            raw = docs[image].encode("latin-1")
+            p.write_bytes(raw if initial == "complete" else raw[: len(raw) // 3])
+    names = case["actors"]
+    sched = c19.Scheduler(schedule, len(names))
+    trees, errors = {}, {}
+
+    def body(tid, name):
+        sched.local.tid = tid
+        try:
+            sched.yield_point(("start",))
+            trees[tid] = harness.open_tree(prod.url, **ACTORS[name])
+        except c19.SchedulerAbort:
+            errors[tid] = "aborted"
+        except Exception as e:  # noqa: BLE001
+            errors[tid] = harness.exc_text(e)
+        finally:
+            sched.finished(tid)
+
+    threads = [threading.Thread(target=body, args=(i, n), daemon=True) for i, n in enumerate(names)]
+    with PathYields(sched):
+        for t in threads:
+            t.start()
+        sched.run()
+        for t in threads:
+            t.join(timeout=20)
+            if t.is_alive():
+                raise c19.HarnessTimeout("thread did not finish after the scheduler ended")
+    out = []
+    ctx = {"choices": list(sched.choices), "actors": names, "initial": initial}
+    if sched.deadlock:
+        return [harness.disc("deadlock", "concurrent opens", "all opens return", "no runnable thread", **ctx)], sched
+    for tid, name in enumerate(names):
+        if not name.startswith("reader"):
+            continue
+        what = f"default open while another open writes the cache (thread {tid})"
+        if tid in errors:
+            out.append(harness.disc("poisoned-open", what, "tree identical to the uncached open", errors[tid], **ctx))
+        elif name == "reader":
+            flat, err = harness.guard(harness.flatten, trees[tid])
+            if err is not None:
+                out.append(harness.disc("poisoned-open", what, "loadable tree", harness.exc_text(err), **ctx))
+            else:
+                out.extend(dict(d, context=dict(d.get("context", {}), **ctx)) for d in harness.diff_flat(ref, flat, kind="torn-cache-differs")[:3])
+    if out:
+        return out, sched
+    # afterwards: a default open succeeds, a create_cache repairs, the cache is then complete
+    tree, err = harness.guard(harness.open_tree, prod.url)
+    if err is not None:
+        out.append(harness.disc("poisoned-open", "default open after the concurrent opens", "tree", harness.exc_text(err), **ctx))
+    else:
+        out.extend(dict(d, context=dict(d.get("context", {}), **ctx)) for d in harness.diff_flat(ref, harness.flatten(tree), kind="torn-cache-differs")[:3])
+    return out, sched
+
+
+INTERLEAVED_UNITS = {}
+
+
+def run_interleaved_dfs(case, prod, images, ref, docs):
+    """depth-first enumeration of the interleavings whose first decisions equal the prefix"""
+    out, units = [], []
+    prefix = list(case["prefix"])
+    choices = list(prefix)
+    realisable, complete = True, True
+    while True:
+        discs, sched = run_interleaved(case, prod, images, ref, docs, choices)
+        br, ch = sched.branching, sched.choices
+        if len(ch) < len(prefix) or any(p >= b for p, b in zip(prefix, br)):
+            realisable = False
+            break
+        switches = sum(1 for a, b in zip(sched.trace, sched.trace[1:]) if a[0] != b[0])
+        units.append((tuple(ch), switches >= 2))
+        if discs and not out:
+            out.extend(discs)
+            break
+        i = len(ch) - 1
+        while i >= len(prefix) and ch[i] + 1 >= br[i]:
+            i -= 1
+        if i < len(prefix):
+            break
+        choices = ch[:i] + [ch[i] + 1]
+        if len(units) >= case["limit"]:
+            complete = False
+            break
+    INTERLEAVED_UNITS[harness.case_hash(case)] = units if realisable else []
+    if realisable:
+        NOTES["interleavings-complete" if complete else "inexhaustive:interleavings-truncated"] += 1
+    return out if realisable else []
+
+
+
+
+def interleaved_cases(tier):
+    q = tier == "quick"
+    for level in LEVELS[:1] if q else LEVELS:
+        for initial in ("complete", "absent", "torn"):
+            for actors in (["reader", "writer"], ["reader", "writer-using"], ["reader-rpc", "writer", "writer"]):
+                n = len(actors)
+                if q and n == 3 and initial != "complete":
+                    continue
+                for a in range(n):
+                    for b in range(n):
+                        yield {"kind": "interleaved", "level": level, "initial": initial, "actors": actors, "prefix": [a, b],
+                               "limit": (40 if n == 2 else 15) if q else (3000 if n == 2 else 600)}
+
+
 def run_case(case):
     prod, images, ref, docs = base(case["level"])
     clean(prod, images)
@@ -309,6 +522,10 @@ def run_case(case):
             return run_enospc(case, prod, images, ref, docs)
         if case["kind"] == "concurrent-tools":
             return run_concurrent_tools(case, prod, images, ref, docs)
+        if case["kind"] == "interleaved":
+            if "schedule" in case:
+                return run_interleaved(case, prod, images, ref, docs, case["schedule"])[0]
+            return run_interleaved_dfs(case, prod, images, ref, docs)
         raise ValueError(case["kind"])
     finally:
         clean(prod, images)
@@ -508,6 +725,7 @@ def plan(tier):
     q = tier == "quick"
     return [
         {"kind": "enum", "name": "prefixes+live-writer", "cases": lambda: enum_cases(tier), "exhaustive": True},
+        {"kind": "enum", "name": "interleaved-opens", "cases": lambda: interleaved_cases(tier), "exhaustive": False},
         {"kind": "hyp", "name": "random-prefixes", "strategy": random_prefix(), "examples": 60 if q else 2000},
         {"kind": "hyp", "name": "random-prefix-pairs", "strategy": random_prefix2(), "examples": 30 if q else 2000},
         {"kind": "hyp", "name": "sigkill", "strategy": kill_cases(), "examples": 8 if q else 200},
@@ -515,8 +733,18 @@ def plan(tier):
     ]
 
 
+def sub_units(case):
+    if case["kind"] == "interleaved" and "schedule" not in case:
+        for choices, nontrivial in INTERLEAVED_UNITS.pop(harness.case_hash(case), []):
+            yield ["interleaved", case["level"], case["initial"], case["actors"], list(choices)], nontrivial
+    else:
+        yield case, classify(case)[0]
+
+
 def classify(case):
     labels = [f"kind={case['kind']}", f"level={case['level']}"]
+    if case["kind"] == "interleaved":
+        labels += [f"initial={case['initial']}", "actors=" + "+".join(case["actors"])]
     if case["kind"] == "prefix":
         labels.append(f"location={case['location']}")
         labels.append(f"through={case.get('through', 'open_alos2')}")
@@ -534,7 +762,8 @@ LEVEL_TEXT = (
     "Fault enumeration over the crash points of the cache write: every byte-length prefix of the "
     "index document (thorough: all of them, for both images, both locations, both levels), real "
     "SIGKILLs of a writing process at generated offsets and a live second writer; after each "
-    "fault the default open must equal the uncached reference and a later create_cache must repair."
+    "fault the default open must equal the uncached reference and a later create_cache must repair; "
+    "plus schedule enumeration of a reader interleaved with the library's own cache writer at the level of index-file operations."
 )
 LEVEL_NOTE = "Trusted: the harness-installed byte-wise writer in the child process (pathlib.Path.write_text replaced there only); tree flattener."
-TECHNIQUE = "fault enumeration of all write prefixes + SIGKILL injection + held concurrent writer; metamorphic oracle vs uncached reference, repair check"
+TECHNIQUE = "fault enumeration of all write prefixes + SIGKILL injection + held concurrent writer + deterministic-scheduler enumeration of reader/writer interleavings; metamorphic oracle vs uncached reference, repair check"
